@@ -20,6 +20,9 @@ const PROVIDERS: &[(&str, &[(&str, usize)])] = &[
     ("a::inner", &[("T", 6)]),
     ("d", &[("T", 7), ("B", 10)]),
     ("d::T", &[("B", 11)]), // the same the other way round
+    // modules nested BELOW the observed modules, never imported: a lookup from `c` must see the direct children of `c` only
+    ("c::sub", &[("T", 12), ("B", 13)]),
+    ("x::c::sub", &[("T", 14), ("B", 15)]),
 ];
 const USES: &[&str] = &["a", "b", "d", "a::T", "b::T", "d::T", "a::B", "b::B", "a::B::T", "a::inner", "a::inner::T", "d::T::B", "nope", "a::Nope"];
 
